@@ -312,8 +312,10 @@ func alphabet(tier string, reduced bool) []ev {
 		{Who: "snd", T: "data", Stream: 1, N: 5},
 		{Who: "snd", T: "data", Stream: 3, N: 5},
 		{Who: "snd", T: "data", Stream: 1, N: 5, Pad: 3},
+		{Who: "snd", T: "data", Stream: 1, N: 0, Pad: 4}, // padding only: flow-controlled length 4, no data
 		{Who: "rcv", T: "iws", N: 0},
 		{Who: "rcv", T: "iws", N: 4},
+		{Who: "rcv", T: "wu", Stream: 1, N: 1},
 		{Who: "rcv", T: "wu", Stream: 1, N: 5},
 		{Who: "rcv", T: "wu", Stream: 3, N: 3},
 		{Who: "rcv", T: "wu", Stream: 0, N: 5},
@@ -330,7 +332,6 @@ func alphabet(tier string, reduced bool) []ev {
 		ev{Who: "rcv", T: "iws", N: 65535},
 		ev{Who: "rcv", T: "mfs", N: 16385},
 		ev{Who: "rcv", T: "mfs", N: 32768},
-		ev{Who: "rcv", T: "wu", Stream: 1, N: 1},
 		ev{Who: "rcv", T: "wu", Stream: 1, N: 100000},
 		ev{Who: "rcv", T: "wu", Stream: 3, N: 100000},
 		ev{Who: "rcv", T: "wu", Stream: 0, N: 1},
@@ -385,13 +386,15 @@ func scenarios(tier string) []scenario {
 		gen("s2c", 0, full, 3)
 		gen("c2s", 0, red, 4)
 		gen("s2c", 0, red, 4)
-		gen("c2s", 2, red, 3)
+		gen("c2s", 4, red, 4) // windows that go negative when the receiver shrinks its initial window
+		gen("s2c", 4, red, 3)
 	} else {
 		gen("c2s", 0, full, 4)
 		gen("c2s", -1, full, 3)
 		gen("s2c", 0, full, 3)
 		gen("s2c", -1, full, 3)
-		gen("c2s", 2, red, 4)
+		gen("c2s", 4, red, 5)
+		gen("s2c", 4, red, 4)
 		gen("c2s", 0, red, 5)
 		gen("s2c", 0, red, 5)
 	}
@@ -552,7 +555,7 @@ func main() {
 	rep.Coverage["transitions"] = rep.Counter("history_events") + rep.Counter("concurrent_executions")
 	rep.Coverage["traces_validated_against_impl"] = rep.Counter("executions")
 	rep.Coverage["exhaustive"] = rep.Incomplete == ""
-	rep.Coverage["bounds"] = fmt.Sprintf("%d scenarios: all event histories (21-event alphabet to depth 3 (quick) / 4 (thorough), 10-event alphabet to depth 4 / 5) from receiver initial windows {0,2,default}, both directions, each event followed by run-to-quiescence and invariants I1-I4 evaluated in every state; plus 24 concurrent DATA/WINDOW_UPDATE script pairs under schedule exploration", len(scen))
+	rep.Coverage["bounds"] = fmt.Sprintf("%d scenarios: all event histories (21-event alphabet to depth 3 (quick) / 4 (thorough), 12-event alphabet to depth 4 / 5) from receiver initial windows {0,4,default}, both directions, each event followed by run-to-quiescence and invariants I1-I4 evaluated in every state; plus 24 concurrent DATA/WINDOW_UPDATE script pairs under schedule exploration", len(scen))
 	rep.Coverage["explanation"] = "states = distinct ledger states (windows, pending bytes, max frame size) summed over shards; every history is replayed on a fresh real relay (no deduplication)"
 	rep.Assumptions = []string{"2 streams; sizes and increments from the alphabet", "MAX_FRAME_SIZE only raised within a history", "I4 at the granularity of the relay's own frames (no obligation to split a frame to fit a smaller window)"}
 	rep.Finish()
